@@ -213,7 +213,10 @@ theorem subOk_tyOk : ∀ (t : Ty), subOk t = true → tyOk t = true
   | .scalar _ _, h => by simpa [tyOk] using h
   | .array _ _, h => by simpa [tyOk] using h
   | .inc _, h => by simp [subOk] at h
-  | .struct _ _ _, h => by simpa [tyOk] using h
+  | .struct _ _ fl, h => by
+    cases fl with
+    | false => simpa [tyOk] using h
+    | true => simp [subOk] at h
   | .union _ _ _, h => by simpa [tyOk] using h
 
 theorem subOkMs_get : ∀ (ms : Members) (k : Nat) (mi : MemInfo) (t : Ty), subOkMs ms = true → ms[k]? = some (mi, t) → subOk t = true
@@ -224,6 +227,22 @@ theorem subOkMs_get : ∀ (ms : Members) (k : Nat) (mi : MemInfo) (t : Ty), subO
     | zero => simp at h; rw [← h.2]; exact ho.1
     | succ k => simp at h; exact subOkMs_get ms k mi t ho.2 h
 
+/-- every member of a struct with flexible array member has a covered type (the flexible member: `elem[0]`) -/
+theorem flexOkMs_get : ∀ (ms : Members) (k : Nat) (mi : MemInfo) (t : Ty), flexOkMs ms = true → ms[k]? = some (mi, t) → subOk t = true
+  | [], _, _, _, h, _ => by simp [flexOkMs] at h
+  | [(mi0, t0)], k, mi, t, ho, h => by
+    cases k with
+    | zero =>
+      simp at h; obtain ⟨_, rfl⟩ := h
+      cases t0 <;> simp [flexOkMs] at ho
+      simpa [subOk] using ho
+    | succ k => simp at h
+  | (_, t0) :: m :: r, k, mi, t, ho, h => by
+    simp only [flexOkMs, Bool.and_eq_true] at ho
+    cases k with
+    | zero => simp at h; rw [← h.2]; exact ho.1
+    | succ k => simp at h; exact flexOkMs_get (m :: r) k mi t ho.2 (by simpa using h)
+
 /-- the type one level down is again covered -/
 theorem tyOk_child {t0 t : Ty} {k : Nat} (h0 : tyOk t0 = true) (h : childTy t0 k = some t) : subOk t = true := by
   cases t0 with
@@ -231,11 +250,16 @@ theorem tyOk_child {t0 t : Ty} {k : Nat} (h0 : tyOk t0 = true) (h : childTy t0 k
   | array e n => simp [childTy] at h; simp [tyOk, subOk] at h0; rw [← h]; exact h0
   | inc e => simp [childTy] at h; simp [tyOk] at h0; rw [← h]; exact h0
   | struct ms sz fl =>
-    simp [tyOk, subOk] at h0
     simp only [childTy, Option.map_eq_some_iff] at h
     obtain ⟨⟨mi, t'⟩, hm, ht⟩ := h
     simp at ht; rw [← ht]
-    exact subOkMs_get ms k mi t' h0.2 hm
+    cases fl with
+    | false =>
+      simp [tyOk, subOk] at h0
+      exact subOkMs_get ms k mi t' h0 hm
+    | true =>
+      simp only [tyOk] at h0
+      exact flexOkMs_get ms k mi t' h0 hm
   | union ms sz fl =>
     simp [tyOk, subOk] at h0
     simp only [childTy, Option.map_eq_some_iff] at h
@@ -567,5 +591,301 @@ theorem modifyAt_eq (root : Ty) (top : Bool) (f : Ty → Init → Except Fail In
       rw [ih]
       rw [except_bind_pure_comp]
       simp [setAtM, hk]
+
+/-! ### a struct root with a flexible array member
+
+The declared object may be a struct whose last member is a flexible array member.  Its node is `.flex` until the first
+initializer reaches it and an array of the counted length afterwards (parser), resp. an array that grows (specification), so the
+root object is not `shaped` in the member.  `shapedR` is `shaped` up to that member; `pathOk` are the paths at which the parser works
+on an ordinary node: not the root struct itself and not the flexible member itself (their elements and everything else are). -/
+
+def isFlexRoot : Ty → Bool
+  | .struct _ _ true => true
+  | _ => false
+
+/-- children of a struct with flexible array member: ordinary members shaped; the last member unresolved or an array of any length -/
+def shapedFlexMs : Members → List Init → Bool
+  | [(_, .array e _)], [c] => (match c with | .flex => true | .arr xs => shapedAll e xs | _ => false)
+  | (_, t) :: m :: ms, c :: cs => shaped t c && shapedFlexMs (m :: ms) cs
+  | _, _ => false
+
+def shapedR (root : Ty) (obj : Init) : Bool :=
+  match root with
+  | .struct ms _ true => (match obj with | .struct _ cs => shapedFlexMs ms cs | _ => false)
+  | t => shaped t obj
+
+def pathOk (root : Ty) (p : List Nat) : Bool :=
+  match root with
+  | .struct ms _ true => (match p with | [] => false | [k] => k + 1 != ms.length | _ => true)
+  | _ => true
+
+theorem shapedR_of_not_flex {root : Ty} {obj : Init} (h : isFlexRoot root = false) : shapedR root obj = shaped root obj := by
+  cases root with
+  | struct ms sz fl => cases fl <;> simp_all [isFlexRoot, shapedR]
+  | _ => rfl
+
+theorem pathOk_of_not_flex {root : Ty} (h : isFlexRoot root = false) (p : List Nat) : pathOk root p = true := by
+  cases root with
+  | struct ms sz fl => cases fl <;> simp_all [isFlexRoot, pathOk]
+  | _ => rfl
+
+theorem isFlexRoot_subOk {t : Ty} (h : subOk t = true) : isFlexRoot t = false := by
+  cases t with
+  | struct ms sz fl => cases fl <;> simp_all [isFlexRoot, subOk]
+  | _ => rfl
+
+theorem isFlexRoot_inc (e : Ty) : isFlexRoot (.inc e) = false := rfl
+
+theorem shapedFlexMs_length : ∀ (ms : Members) (cs : List Init), shapedFlexMs ms cs = true → cs.length = ms.length
+  | [], _, h => by simp [shapedFlexMs] at h
+  | [(_, t)], cs, h => by
+    cases t <;> first | (simp [shapedFlexMs] at h) | skip
+    cases cs with
+    | nil => simp [shapedFlexMs] at h
+    | cons c cs => cases cs with
+      | nil => rfl
+      | cons _ _ => simp [shapedFlexMs] at h
+  | (_, t) :: m :: ms, [], h => by simp [shapedFlexMs] at h
+  | (_, t) :: m :: ms, c :: cs, h => by
+    simp only [shapedFlexMs, Bool.and_eq_true] at h
+    simp [shapedFlexMs_length (m :: ms) cs h.2]
+
+/-- the flexible member's node -/
+def flexNode (e : Ty) (c : Init) : Prop := c = .flex ∨ ∃ xs, c = .arr xs ∧ shapedAll e xs = true
+
+theorem shapedFlexMs_get : ∀ (ms : Members) (cs : List Init) (j : Nat) (mi : MemInfo) (t : Ty) (c : Init), shapedFlexMs ms cs = true →
+    ms[j]? = some (mi, t) → cs[j]? = some c →
+    (j + 1 ≠ ms.length ∧ shaped t c = true) ∨ (j + 1 = ms.length ∧ ∃ e n, t = .array e n ∧ flexNode e c)
+  | [], _, _, _, _, _, h, _, _ => by simp [shapedFlexMs] at h
+  | [(_, t0)], cs, j, mi, t, c, h, hm, hc => by
+    cases j with
+    | succ j => simp at hm
+    | zero =>
+      simp at hm; obtain ⟨_, rfl⟩ := hm
+      cases t0 <;> first | (simp [shapedFlexMs] at h) | skip
+      rename_i e n
+      cases cs with
+      | nil => simp at hc
+      | cons c0 cs =>
+        cases cs with
+        | cons _ _ => simp [shapedFlexMs] at h
+        | nil =>
+          simp at hc; subst hc
+          refine Or.inr ⟨rfl, e, n, rfl, ?_⟩
+          cases c0 <;> simp [shapedFlexMs] at h
+          · exact Or.inr ⟨_, rfl, h⟩
+          · exact Or.inl rfl
+  | (_, t0) :: m :: ms, [], _, _, _, _, h, _, _ => by simp [shapedFlexMs] at h
+  | (_, t0) :: m :: ms, c0 :: cs, j, mi, t, c, h, hm, hc => by
+    simp only [shapedFlexMs, Bool.and_eq_true] at h
+    cases j with
+    | zero =>
+      simp at hm hc
+      refine Or.inl ⟨by simp, ?_⟩
+      rw [← hm.2, ← hc]; exact h.1
+    | succ j =>
+      simp only [List.getElem?_cons_succ] at hm hc
+      rcases shapedFlexMs_get (m :: ms) cs j mi t c h.2 hm hc with ⟨h1, h2⟩ | ⟨h1, h2⟩
+      · exact Or.inl ⟨by simp only [List.length_cons] at h1 ⊢; omega, h2⟩
+      · exact Or.inr ⟨by simp only [List.length_cons] at h1 ⊢; omega, h2⟩
+
+theorem shapedFlexMs_set : ∀ (ms : Members) (cs : List Init) (j : Nat) (mi : MemInfo) (t : Ty) (v : Init), shapedFlexMs ms cs = true →
+    ms[j]? = some (mi, t) →
+    ((j + 1 ≠ ms.length ∧ shaped t v = true) ∨ (j + 1 = ms.length ∧ ∃ e n, t = .array e n ∧ flexNode e v)) →
+    shapedFlexMs ms (cs.set j v) = true
+  | [], _, _, _, _, _, h, _, _ => by simp [shapedFlexMs] at h
+  | [(_, t0)], cs, j, mi, t, v, h, hm, hv => by
+    cases j with
+    | succ j => simp at hm
+    | zero =>
+      simp at hm; obtain ⟨_, rfl⟩ := hm
+      rcases hv with ⟨h1, _⟩ | ⟨_, e, n, rfl, hv⟩
+      · simp at h1
+      · cases cs with
+        | nil => simp [shapedFlexMs] at h
+        | cons c0 cs =>
+          cases cs with
+          | cons _ _ => simp [shapedFlexMs] at h
+          | nil =>
+            simp only [List.set_cons_zero, shapedFlexMs]
+            rcases hv with rfl | ⟨xs, rfl, hx⟩
+            · rfl
+            · exact hx
+  | (_, t0) :: m :: ms, [], _, _, _, _, h, _, _ => by simp [shapedFlexMs] at h
+  | (_, t0) :: m :: ms, c0 :: cs, j, mi, t, v, h, hm, hv => by
+    simp only [shapedFlexMs, Bool.and_eq_true] at h
+    cases j with
+    | zero =>
+      simp at hm
+      rcases hv with ⟨_, hv⟩ | ⟨h1, _⟩
+      · simp only [List.set_cons_zero, shapedFlexMs, Bool.and_eq_true]
+        rw [hm.2]; exact ⟨hv, h.2⟩
+      · simp at h1
+    | succ j =>
+      simp only [List.getElem?_cons_succ] at hm
+      simp only [List.set_cons_succ, shapedFlexMs, Bool.and_eq_true]
+      refine ⟨h.1, shapedFlexMs_set (m :: ms) cs j mi t v h.2 hm ?_⟩
+      rcases hv with ⟨h1, h2⟩ | ⟨h1, h2⟩
+      · exact Or.inl ⟨by simp only [List.length_cons] at h1 ⊢; omega, h2⟩
+      · exact Or.inr ⟨by simp only [List.length_cons] at h1 ⊢; omega, h2⟩
+
+theorem growable_false_of {root : Ty} {top : Bool} {p : List Nat} {t : Ty} (ho : tyOk root = true) (hp : pathOk root p = true)
+    (ht : subTy root p = some t) (hok : subOk t = true) : growable root top p = false := by
+  cases root with
+  | scalar => simp [growable]
+  | array => simp [growable]
+  | inc e' =>
+    cases p with
+    | nil => simp [subTy] at ht; subst ht; simp [subOk] at hok
+    | cons k p => simp [growable]
+  | struct ms sz fl =>
+    cases fl with
+    | false => simp [growable]
+    | true =>
+      cases p with
+      | nil => simp [growable]
+      | cons k p =>
+        cases p with
+        | nil => simp only [pathOk, bne_iff_ne, ne_eq] at hp; simp [growable, hp]
+        | cons _ _ => simp [growable]
+  | union ms sz fl =>
+    simp only [tyOk, subOk, Bool.and_eq_true, Bool.not_eq_true'] at ho
+    rw [ho.1.1]; simp [growable]
+
+theorem flexNode_child {e : Ty} {c ci : Init} {i : Nat} (h : flexNode e c) (hi : c.children[i]? = some ci) :
+    ∃ xs, c = .arr xs ∧ shapedAll e xs = true ∧ xs[i]? = some ci := by
+  rcases h with rfl | ⟨xs, rfl, hx⟩
+  · simp [Init.children] at hi
+  · exact ⟨xs, rfl, hx, by simpa [Init.children] using hi⟩
+
+/-- the parser's node at an ordinary path of a (possibly flexible) root is shaped -/
+theorem shapedR_getAt {root : Ty} {obj : Init} {p : List Nat} {t : Ty} {c : Init} (hs : shapedR root obj = true)
+    (hp : pathOk root p = true) (ht : subTy root p = some t) (hc : getAt obj p = some c) : shaped t c = true := by
+  cases hfr : isFlexRoot root with
+  | false => rw [shapedR_of_not_flex hfr] at hs; exact shaped_getAt p root obj t c hs ht hc
+  | true =>
+    cases root with
+    | struct ms sz fl =>
+      cases fl with
+      | false => simp [isFlexRoot] at hfr
+      | true =>
+        cases obj with
+        | struct e0 cs =>
+          simp only [shapedR] at hs
+          cases p with
+          | nil => simp [pathOk] at hp
+          | cons j p' =>
+            obtain ⟨tj, htj, ht'⟩ := subTy_cons_some ht
+            obtain ⟨cj, hcj, hc'⟩ := getAt_cons_some hc
+            simp only [childTy, Option.map_eq_some_iff] at htj
+            obtain ⟨⟨mi, tj'⟩, hm, htj⟩ := htj
+            simp at htj; subst htj
+            simp only [Init.children] at hcj
+            rcases shapedFlexMs_get ms cs j mi tj' cj hs hm hcj with ⟨_, h2⟩ | ⟨h1, e, n, rfl, hn⟩
+            · exact shaped_getAt p' tj' cj t c h2 ht' hc'
+            · cases p' with
+              | nil => simp [pathOk, h1] at hp
+              | cons i p'' =>
+                obtain ⟨ti, hti, ht''⟩ := subTy_cons_some ht'
+                obtain ⟨ci, hci, hc''⟩ := getAt_cons_some hc'
+                simp [childTy] at hti; subst hti
+                obtain ⟨xs, rfl, hx, hxi⟩ := flexNode_child hn hci
+                exact shaped_getAt p'' e ci t c (shapedAll_get e xs i ci hx hxi) ht'' hc''
+        | _ => simp [shapedR] at hs
+    | _ => simp [isFlexRoot] at hfr
+
+theorem shapedR_setAtM {root : Ty} {obj : Init} {p : List Nat} {t : Ty} {c v : Init} (hs : shapedR root obj = true)
+    (hp : pathOk root p = true) (ht : subTy root p = some t) (hc : getAt obj p = some c) (hv : shaped t v = true) :
+    shapedR root (setAtM obj p v) = true := by
+  cases hfr : isFlexRoot root with
+  | false => rw [shapedR_of_not_flex hfr] at hs ⊢; exact shaped_setAtM p root obj t c v hs ht hc hv
+  | true =>
+    cases root with
+    | struct ms sz fl =>
+      cases fl with
+      | false => simp [isFlexRoot] at hfr
+      | true =>
+        cases obj with
+        | struct e0 cs =>
+          simp only [shapedR] at hs
+          cases p with
+          | nil => simp [pathOk] at hp
+          | cons j p' =>
+            obtain ⟨tj, htj, ht'⟩ := subTy_cons_some ht
+            obtain ⟨cj, hcj, hc'⟩ := getAt_cons_some hc
+            simp only [childTy, Option.map_eq_some_iff] at htj
+            obtain ⟨⟨mi, tj'⟩, hm, htj⟩ := htj
+            simp at htj; subst htj
+            simp only [Init.children] at hcj
+            simp only [setAtM, shapedR, getD_of_getElem? hcj]
+            rcases shapedFlexMs_get ms cs j mi tj' cj hs hm hcj with ⟨h1, h2⟩ | ⟨h1, e, n, rfl, hn⟩
+            · exact shapedFlexMs_set ms cs j mi tj' _ hs hm (Or.inl ⟨h1, shaped_setAtM p' tj' cj t c v h2 ht' hc' hv⟩)
+            · cases p' with
+              | nil => simp [pathOk, h1] at hp
+              | cons i p'' =>
+                obtain ⟨ti, hti, ht''⟩ := subTy_cons_some ht'
+                obtain ⟨ci, hci, hc''⟩ := getAt_cons_some hc'
+                simp [childTy] at hti; subst hti
+                obtain ⟨xs, rfl, hx, hxi⟩ := flexNode_child hn hci
+                refine shapedFlexMs_set ms cs j mi _ _ hs hm (Or.inr ⟨h1, e, n, rfl, Or.inr ⟨xs.set i (setAtM ci p'' v), ?_, ?_⟩⟩)
+                · simp only [setAtM, getD_of_getElem? hxi]
+                · exact shapedAll_set e xs i _ hx (shaped_setAtM p'' e ci t c v (shapedAll_get e xs i ci hx hxi) ht'' hc'' hv)
+        | _ => simp [shapedR] at hs
+    | _ => simp [isFlexRoot] at hfr
+
+/-- `modifyAt` from the root of the declared object (the flexible array member included, `top`) when nothing switches is `setAtM` -/
+theorem modifyAt_eqR (root : Ty) (top : Bool) (f : Ty → Init → Except Fail Init) {obj : Init} {p : List Nat} {t : Ty} {old : Init}
+    (ho : tyOk root = true) (htop : isFlexRoot root = true → top = true) (hs : shapedR root obj = true) (hp : pathOk root p = true)
+    (ht : subTy root p = some t) (hg : getAt obj p = some old) (hsw : switchesUnion obj p = false) :
+    modifyAt root top f root [] p obj = (f t old >>= fun v => pure (setAtM obj p v)) := by
+  cases hfr : isFlexRoot root with
+  | false => rw [shapedR_of_not_flex hfr] at hs; exact modifyAt_eq root top f p root [] obj t old ho hs ht hg hsw
+  | true =>
+    have htt := htop hfr
+    subst htt
+    cases root with
+    | struct ms sz fl =>
+      cases fl with
+      | false => simp [isFlexRoot] at hfr
+      | true =>
+        cases obj with
+        | struct e0 cs =>
+          simp only [shapedR] at hs
+          simp only [tyOk] at ho
+          cases p with
+          | nil => simp [pathOk] at hp
+          | cons j p' =>
+            obtain ⟨tj, htj, ht'⟩ := subTy_cons_some ht
+            obtain ⟨cj, hcj, hg'⟩ := getAt_cons_some hg
+            simp only [childTy, Option.map_eq_some_iff] at htj
+            obtain ⟨⟨mi, tj'⟩, hm, htj⟩ := htj
+            simp at htj; subst htj
+            have hsw' := switchesUnion_cons_of_some hcj hsw
+            simp only [Init.children] at hcj
+            have hoj : subOk tj' = true := flexOkMs_get ms j mi tj' ho hm
+            unfold modifyAt
+            simp only [hm, getD_of_getElem? hcj]
+            rcases shapedFlexMs_get ms cs j mi tj' cj hs hm hcj with ⟨_, h2⟩ | ⟨h1, e, n, rfl, hn⟩
+            · rw [modifyAt_eq _ true f p' tj' _ cj t old (subOk_tyOk tj' hoj) h2 ht' hg' hsw']
+              rw [except_bind_pure_comp]
+              simp [setAtM, hcj]
+            · cases p' with
+              | nil => simp [pathOk, h1] at hp
+              | cons i p'' =>
+                obtain ⟨ti, hti, ht''⟩ := subTy_cons_some ht'
+                obtain ⟨ci, hci, hg''⟩ := getAt_cons_some hg'
+                simp [childTy] at hti; subst hti
+                obtain ⟨xs, rfl, hx, hxi⟩ := flexNode_child hn hci
+                have hlt : i < xs.length := (List.getElem?_eq_some_iff.mp hxi).1
+                have hsw'' := switchesUnion_cons_of_some hci hsw'
+                have hoe : subOk e = true := by simpa [subOk] using hoj
+                have hgr : growable (.struct ms sz true) true ([] ++ [j]) = true := by simp [growable, h1]
+                unfold modifyAt
+                simp only [hlt, ↓reduceIte, hgr, or_true, and_self, getD_of_getElem? hxi]
+                rw [modifyAt_eq _ true f p'' e _ ci t old (subOk_tyOk e hoe) (shapedAll_get e xs i ci hx hxi) ht'' hg'' hsw'']
+                rw [except_bind_pure_comp, except_bind_pure_comp]
+                simp [setAtM, hcj, hxi]
+        | _ => simp [shapedR] at hs
+    | _ => simp [isFlexRoot] at hfr
 
 end ChibiVerif.InitSpec
